@@ -1,5 +1,7 @@
 package diam
 
+import "github.com/fiorix/go-diameter/v4/diam/dict"
+
 // C09: dispatch selects the handler by index, then by name, then the catch-all.
 
 func zzFlag(tag string) bool { return vChoice(tag, 2) == 1 }
@@ -92,4 +94,119 @@ func zzC09_mux() {
 		vAssert(report != nil && report.Message == m, "an error report is offered when no handler matches")
 	}
 	vReach("C09_mux")
+}
+
+// zzC09_embedded: the same decision table on the embedded dictionaries. The message's (application,
+// command) ranges over every loaded application id (and an unknown one) x every command code any
+// dictionary defines (and an unknown one); the command's short name is taken from the reference
+// resolver B.5 (the message's own application, else the base application) over the public list of
+// applications; name handlers for every *other* short name in the dictionaries are registered too
+// and must never run.
+func zzC09_embedded() {
+	d := dict.Default
+	var appIDs, codes []uint32
+	var shorts []string
+	addU := func(l []uint32, x uint32) []uint32 {
+		for _, y := range l {
+			if y == x {
+				return l
+			}
+		}
+		return append(l, x)
+	}
+	for _, a := range d.Apps() {
+		appIDs = addU(appIDs, a.ID)
+		for _, c := range a.Command {
+			codes = addU(codes, c.Code)
+			dup := false
+			for _, sname := range shorts {
+				if sname == c.Short {
+					dup = true
+				}
+			}
+			if !dup {
+				shorts = append(shorts, c.Short)
+			}
+		}
+	}
+	appIDs = append(appIDs, 999)
+	codes = append(codes, 8388000)
+	app := appIDs[vChoice("app", len(appIDs))]
+	code := codes[vChoice("code", len(codes))]
+	ref := ""
+	for _, want := range [2]uint32{app, 0} {
+		for _, a := range d.Apps() {
+			if a.ID != want {
+				continue
+			}
+			for _, c := range a.Command {
+				if c.Code == code {
+					ref = c.Short // the most recently loaded definition wins
+				}
+			}
+		}
+		if ref != "" {
+			break
+		}
+	}
+	isReq := zzFlag("request")
+	flags := uint8(0)
+	suffix := "A"
+	if isReq {
+		flags, suffix = 0x80, "R"
+	}
+	m := &Message{Header: &Header{Version: 1, MessageLength: 20, CommandFlags: flags, CommandCode: code, ApplicationID: app, HopByHopID: 1, EndToEndID: 1}, dictionary: d}
+	mux := NewServeMux()
+	var log []int
+	mk := func(id int) Handler { return HandlerFunc(func(c Conn, m *Message) { log = append(log, id) }) }
+	expectIdx, expectName, expectAll := 0, 0, 0
+	if zzFlag("idxOwn") {
+		mux.HandleIdx(CommandIndex{AppID: app, Code: code, Request: isReq}, mk(1))
+		expectIdx = 1
+	}
+	for _, sname := range shorts {
+		if sname == ref {
+			if zzFlag("nameOwn") {
+				mux.Handle(sname+suffix, mk(6))
+				expectName = 6
+			}
+		} else {
+			mux.Handle(sname+suffix, mk(9)) // another command's name: never called
+		}
+	}
+	if zzFlag("all") {
+		mux.Handle("ALL", mk(10))
+		expectAll = 10
+	}
+	mux.ServeDIAM(nil, m)
+	var report *ErrorReport
+	select {
+	case report = <-mux.ErrorReports():
+	default:
+	}
+	if ref == "" {
+		// neither the message's application nor the base application defines the command (ReadMessage
+		// rejects such a message): whatever runs, it is not a handler registered for another command
+		for _, id := range log {
+			vAssert(id == 1 || id == 10, "no handler registered under another command's name is ever called")
+		}
+		vAssert(len(log) <= 1 && (len(log) == 1) == (report == nil), "one handler or one error report")
+		vReach("C09_embedded")
+		return
+	}
+	want := expectIdx
+	if want == 0 {
+		want = expectName
+	}
+	if want == 0 {
+		want = expectAll
+	}
+	if want != 0 {
+		vAssert(len(log) == 1 && log[0] == want, "embedded dictionaries: exactly the handler chosen by index, then by the command's short name, then the catch-all is called")
+		vAssert(report == nil, "no error report when a handler ran")
+	} else {
+		vAssert(len(log) == 0, "no handler runs when none matches")
+		vAssert(report != nil && report.Message == m, "an error report is offered when no handler matches")
+	}
+	vReach("C09_embedded")
 }
